@@ -87,7 +87,7 @@ class Pipe(object):
         self.readers = 0
         self.writers = 0
         self.total = 0
-        self.chunks = None     # optional message boundaries for torn reads
+        self.log = bytearray() if kernel.keep_logs else None
 
 
 class PipeR(OpenFile):
@@ -147,6 +147,8 @@ class PipeW(OpenFile):
         data = data[:room]
         p.buf += data
         p.total += len(data)
+        if p.log is not None:
+            p.log += data
         p.k.kick()
         return len(data)
 
@@ -176,6 +178,8 @@ class Pty(object):
         self.fg = None               # foreground Proc
         self.eof_flavour = eof_flavour
         self.session = None
+        self.out_log = bytearray() if kernel.keep_logs else None
+        self.in_log = bytearray() if kernel.keep_logs else None
 
     # flags
     def lflag(self, bit):
@@ -186,21 +190,26 @@ class Pty(object):
         if b == 0x0a or b == 0x0d:
             self._emit(bytes([b]))
         elif b < 0x20 and b != 0x09 and self.lflag(ECHOCTL):
-            self.out += bytes([0x5e, b + 0x40])
-            self.out_total += 2
+            self._raw_out(bytes([0x5e, b + 0x40]))
         else:
-            self.out += bytes([b])
-            self.out_total += 1
+            self._raw_out(bytes([b]))
 
     def _emit(self, data):
         if (self.attr[1] & OPOST) and (self.attr[1] & ONLCR):
             data = data.replace(b'\n', b'\r\n')
+        self._raw_out(data)
+
+    def _raw_out(self, data):
         self.out += data
         self.out_total += len(data)
+        if self.out_log is not None:
+            self.out_log += data
 
     def master_write(self, data):
         """Input processing (master -> slave)."""
         cc = self.attr[6]
+        if self.in_log is not None:
+            self.in_log += data
         for b in data:
             self.in_total += 1
             if (self.attr[0] & ICRNL) and b == 0x0d:
@@ -234,8 +243,7 @@ class Pty(object):
                     if self.line:
                         self.line.pop()
                         if self.lflag(ECHO):
-                            self.out += b'\x08 \x08'
-                            self.out_total += 3
+                            self._raw_out(b'\x08 \x08')
                     continue
                 if b == cc[_termios.VKILL][0]:
                     del self.line[:]
@@ -367,11 +375,12 @@ class PtySlave(OpenFile):
 
 
 class SockBuf(object):
-    def __init__(self, cap):
+    def __init__(self, cap, keep=False):
         self.buf = bytearray()
         self.cap = cap
         self.wr_closed = False    # writer shut down / closed -> EOF after buf
         self.total = 0
+        self.log = bytearray() if keep else None
 
 
 class SockEnd(OpenFile):
@@ -420,6 +429,8 @@ class SockEnd(OpenFile):
         data = data[:room]
         self.tx.buf += data
         self.tx.total += len(data)
+        if self.tx.log is not None:
+            self.tx.log += data
         self.k.kick()
         return len(data)
 
@@ -480,6 +491,7 @@ class Kernel(object):
         self.touched = {}       # fd -> list of (call) for decoy detection
         self.watch = set()
         self.closed_log = []
+        self.keep_logs = bool(world.scn.get('keep_logs', True))
 
     # ------------------------------------------------------------ wakeups
     def kick(self):
@@ -540,8 +552,8 @@ class Kernel(object):
         return Pty(self, **kw)
 
     def socketpair(self, cap=65536):
-        a2b = SockBuf(cap)
-        b2a = SockBuf(cap)
+        a2b = SockBuf(cap, self.keep_logs)
+        b2a = SockBuf(cap, self.keep_logs)
         a = SockEnd(self, b2a, a2b)
         b = SockEnd(self, a2b, b2a)
         a.peer = b
